@@ -1,7 +1,7 @@
 (* TupleKey/ProofsTop.v — the statements of Props_C16.v assembled from the lemma files. *)
 From Coq Require Import NArith ZArith List Lia Bool.
 From Blue Require Import Gen.Const_TupleKey TupleKey.Lex TupleKey.Bits TupleKey.ModelV2 TupleKey.ModelV1 TupleKey.Spec
-  TupleKey.ProofsV2 TupleKey.ProofsV1a TupleKey.ProofsV1b TupleKey.ProofsV1c.
+  TupleKey.ProofsV2 TupleKey.ProofsV1a TupleKey.ProofsV1b TupleKey.ProofsV1c TupleKey.ProofsV1d.
 Import ListNotations.
 Open Scope N_scope.
 
@@ -121,4 +121,11 @@ Lemma v1_decode_encode : forall via t a rest, wf1 t -> Forall (fun fl => utf8_el
 Proof.
   intros via t a rest W U Ea. rewrite encode1_spec in Ea by assumption. injection Ea as <-.
   now apply decode1_enc1.
+Qed.
+
+Lemma v1_peek_next : forall fl t a rest, wf1 (fl :: t) -> encode1 (fl :: t) = Some a ->
+  peek_next (a ++ rest) = Some (Some (f_num fl, kty_of (f_val fl), f_dir fl)).
+Proof.
+  intros fl t a rest W Ea. rewrite encode1_spec in Ea by assumption. injection Ea as <-.
+  now apply peek_next_enc1.
 Qed.
